@@ -2,6 +2,7 @@ package multiplex
 
 import (
 	"fmt"
+	"net"
 	"strings"
 	"sync"
 	"sync/atomic"
@@ -28,8 +29,9 @@ type c12Backlog struct {
 	Key     string
 	Streams int    // streams the peer opens (the accept queue holds 1024)
 	Taken   int    // streams the application had accepted before it got busy
-	Trigger string // "close-receiver" | "close-opener" | "reset" | "late-accept-then-close"
+	Trigger string // "close-receiver" | "close-opener" | "reset" | "late-accept-then-close" | "accept-all-then-close"
 	Conns   int
+	Frames  int `json:",omitempty"` // extra frames each opened stream sends right away (spread over the connections)
 }
 
 func c12BacklogRun(sc c12Backlog) (vk.Result, error) {
@@ -51,6 +53,23 @@ func c12BacklogRun(sc c12Backlog) (vk.Result, error) {
 	}
 	var progress int64
 	w := c01LiveWait{&progress}
+	// every stream the peer opened is handed to Accept at most once
+	var accMu sync.Mutex
+	accepted := map[uint32]bool{}
+	var dupErr error
+	acceptOne := func() (net.Conn, error) {
+		c, err := receiver.Accept()
+		if err == nil {
+			id := c.(*Stream).id
+			accMu.Lock()
+			if accepted[id] && dupErr == nil {
+				dupErr = vk.ViolateSig("stream-accepted-twice", "Accept handed out a second stream object for stream id %d (%d streams opened over %d connections, %d frames each, accept queue holds %d): both number their frames from 0 under one key", id, sc.Streams, sc.Conns, sc.Frames+1, acceptBacklog)
+			}
+			accepted[id] = true
+			accMu.Unlock()
+		}
+		return c, err
+	}
 	var sent int64
 	go func() {
 		for i := 0; i < sc.Streams; i++ {
@@ -58,15 +77,17 @@ func c12BacklogRun(sc c12Backlog) (vk.Result, error) {
 			if err != nil {
 				return
 			}
-			if _, err := st.Write([]byte{byte(i)}); err != nil {
-				return
+			for k := 0; k <= sc.Frames; k++ {
+				if _, err := st.Write([]byte{byte(i)}); err != nil {
+					return
+				}
 			}
 			atomic.AddInt64(&sent, 1)
 			atomic.AddInt64(&progress, 1)
 		}
 	}()
 	for i := 0; i < sc.Taken; i++ {
-		if _, err := receiver.Accept(); err != nil {
+		if _, err := acceptOne(); err != nil {
 			return res, vk.Violatef("Accept on a healthy session failed: %v", err)
 		}
 	}
@@ -74,6 +95,32 @@ func c12BacklogRun(sc c12Backlog) (vk.Result, error) {
 		return res, err
 	}
 	time.Sleep(20 * time.Millisecond) // let the receiving goroutines reach the accept queue
+	if sc.Trigger == "accept-all-then-close" {
+		// the application catches up on a healthy session: every stream the peer opened comes out of Accept exactly once
+		go func() {
+			for {
+				if _, err := acceptOne(); err != nil {
+					return
+				}
+				atomic.AddInt64(&progress, 1)
+			}
+		}()
+		if err := w.wait("the application to accept every stream the peer opened", func() bool {
+			accMu.Lock()
+			defer accMu.Unlock()
+			return len(accepted) == sc.Streams || dupErr != nil
+		}); err != nil {
+			return res, err
+		}
+		time.Sleep(50 * time.Millisecond) // a second object for an id already accepted would surface now
+		accMu.Lock()
+		derr := dupErr
+		accMu.Unlock()
+		if derr != nil {
+			return res, derr
+		}
+		res.Labels = append(res.Labels, "every-stream-accepted-once")
+	}
 	closeRet := make(chan struct{})
 	switch sc.Trigger {
 	case "close-opener":
@@ -88,7 +135,7 @@ func c12BacklogRun(sc c12Backlog) (vk.Result, error) {
 		// an Accept that is already waiting / arrives while the session closes
 		go func() {
 			for {
-				if _, err := receiver.Accept(); err != nil {
+				if _, err := acceptOne(); err != nil {
 					return
 				}
 				atomic.AddInt64(&progress, 1)
@@ -151,7 +198,7 @@ func c12BacklogRun(sc c12Backlog) (vk.Result, error) {
 		res.Labels = append(res.Labels, "peer-initiated-teardown-with-full-queue(application-resumes-accepting)")
 		go func() {
 			for {
-				if _, err := receiver.Accept(); err != nil {
+				if _, err := acceptOne(); err != nil {
 					return
 				}
 				atomic.AddInt64(&progress, 1)
@@ -165,7 +212,7 @@ func c12BacklogRun(sc c12Backlog) (vk.Result, error) {
 	acc := make(chan struct{})
 	go func() {
 		for {
-			if _, err := receiver.Accept(); err != nil {
+			if _, err := acceptOne(); err != nil {
 				close(acc)
 				return
 			}
@@ -184,6 +231,12 @@ func c12BacklogRun(sc c12Backlog) (vk.Result, error) {
 	if _, err := receiver.OpenStream(); err == nil {
 		return res, vk.Violatef("OpenStream succeeded after the session was torn down")
 	}
+	accMu.Lock()
+	derr := dupErr
+	accMu.Unlock()
+	if derr != nil {
+		return res, derr
+	}
 	res.Labels = append(res.Labels, "trigger="+sc.Trigger)
 	if sc.Streams-sc.Taken > acceptBacklog {
 		res.Labels = append(res.Labels, "accept-queue-overflowed")
@@ -194,9 +247,15 @@ func c12BacklogRun(sc c12Backlog) (vk.Result, error) {
 func TestVerif_C12_AcceptBacklog(t *testing.T) {
 	vk.Run(t, "C12", "AcceptBacklog", func(rt *rapid.T) c12Backlog {
 		sc := c12Backlog{Method: rapid.SampledFrom(vAllMethods).Draw(rt, "method"), Key: genKey(rt), Conns: rapid.IntRange(1, 3).Draw(rt, "conns"),
-			Trigger: rapid.SampledFrom([]string{"close-receiver", "close-receiver", "close-opener", "reset", "late-accept-then-close"}).Draw(rt, "trigger"),
-			Taken:   rapid.SampledFrom([]int{0, 0, 1, 7}).Draw(rt, "taken")}
+			Trigger: rapid.SampledFrom([]string{"close-receiver", "close-receiver", "close-opener", "reset", "late-accept-then-close", "accept-all-then-close", "accept-all-then-close"}).Draw(rt, "trigger"),
+			Taken:   rapid.SampledFrom([]int{0, 0, 1, 7}).Draw(rt, "taken"), Frames: rapid.SampledFrom([]int{0, 0, 2, 5}).Draw(rt, "frames")}
 		sc.Streams = sc.Taken + rapid.SampledFrom([]int{1, 100, acceptBacklog - 1, acceptBacklog, acceptBacklog + 1, acceptBacklog + 1, acceptBacklog + 3, acceptBacklog + 40}).Draw(rt, "beyond")
+		if sc.Trigger == "accept-all-then-close" && rapid.IntRange(0, 3).Draw(rt, "shape") > 0 {
+			// the shape this trigger is for: more streams than the queue holds, several frames each, several connections
+			sc.Conns = rapid.IntRange(2, 3).Draw(rt, "conns2")
+			sc.Frames = rapid.SampledFrom([]int{2, 5}).Draw(rt, "frames2")
+			sc.Streams = sc.Taken + acceptBacklog + rapid.SampledFrom([]int{1, 3, 40}).Draw(rt, "beyond2")
+		}
 		return sc
 	}, func(sc c12Backlog) (vk.Result, error) {
 		return vk.Protect(func() (vk.Result, error) { return c12BacklogRun(sc) })
